@@ -630,7 +630,7 @@ def applyFunction : Nat → Obj → List Obj → M Obj
     match fn with
     | .func f =>
       -- a recursive call from a frame that holds a local function (itself or, through recursion, its callers): the
-      -- callee's scope chain runs through these frames: neither looked up nor stored (repo fix e958f06)
+      -- callee's scope chain runs through these frames: neither looked up nor stored (repo fix eeea7a1)
       let cf ← getFrame (← curEnv)
       let skip := cf.localFunc && sameFunction cf f
       if let some (v, output) ← (if skip then pure none else cacheGet f.key args) then
